@@ -79,6 +79,31 @@ func (ex *Exec) callStd2(full string, fobj *types.Func, args []Value, e *ast.Cal
 		ex.st.ranges[errv] = bi(1 << 20)
 		ex.st.addFact(Lt(IntI(1000), errv), "hex error is non-nil and not a package error")
 		return TupleV{m.partial, errv}
+	case "slices.Grow":
+		// slices.Grow(s, n): the same slice when cap(s)-len(s) >= n, otherwise a copy with larger capacity
+		sl := args[0].(SliceV)
+		n := args[1].(*Term)
+		if sl.Obj != nil && sl.Obj.SpareCap != nil {
+			if ex.decide(Le(n, sl.Obj.SpareCap), ex.where(e)) {
+				return sl
+			}
+		}
+		if sl.Abs != nil {
+			o := ex.st.newObj("grow@"+ex.where(e), sl.Obj.Typ)
+			return SliceV{Obj: o, Elem: sl.Elem, Abs: &AbsBytes{Str: sl.Abs.Str, Len: sl.Abs.Len, Obj: o}}
+		}
+		if !n.IsConst() {
+			ex.unsupported("slices.Grow with symbolic size")
+		}
+		k := int(n.val.Int64())
+		if sl.Cap-sl.Len >= k && (sl.Obj == nil || sl.Obj.SpareCap == nil) {
+			return sl
+		}
+		o := ex.newBytes("grow@"+ex.where(e), sl.Len, sl.Len+k)
+		for i := 0; i < sl.Len; i++ {
+			o.Cells[i] = sl.Obj.Cells[sl.Off+i]
+		}
+		return SliceV{Obj: o, Len: sl.Len, Cap: sl.Len + k, Elem: sl.Elem}
 	case "fmt.Errorf":
 		errv := Fresh("wrapped", SInt)
 		ex.st.ranges[errv] = bi(1 << 20)
